@@ -32,6 +32,7 @@ type rcase struct {
 	Pad    []int    `json:",omitempty"` // QR symbol of padText(v, level, Pad[0], Pad[1])
 	DM     int      `json:",omitempty"` // index into the 30 sizes (ascending capacity)
 	DMVal  int      `json:",omitempty"` // Data Matrix value-coverage symbol: kind of dmValueText
+	QRVal  bool     `json:",omitempty"` // QR value-coverage symbol (qrValueText)
 	Key    string   // violation key template (%s = optional size class)
 	Expect string   // "exact" | "not-different" | "info"
 	CW     []int    `json:",omitempty"` // damaged positions of the interleaved codeword sequence
@@ -71,6 +72,7 @@ func main() {
 	runOver()
 	runEuclidShapes()
 	runDMValues()
+	runQRValues()
 	runTwinBlocks()
 	runPadMimic()
 	runSelfTest()
@@ -170,7 +172,7 @@ func classCount(syms ...[]*symbol) map[string]int {
 // one case
 
 func (s *symbol) rcase(key, expect string, f *fault) rcase {
-	rc := rcase{Symbol: s.name(), Kind: s.Kind, V: s.V, Level: s.L, Mask: s.Mask, Twin: s.Twin, Pad: s.pad, DM: s.DMi, DMVal: s.dmValues, Key: key, Expect: expect,
+	rc := rcase{Symbol: s.name(), Kind: s.Kind, V: s.V, Level: s.L, Mask: s.Mask, Twin: s.Twin, Pad: s.pad, DM: s.DMi, DMVal: s.dmValues, QRVal: s.qrValues, Key: key, Expect: expect,
 		CW: f.CW, XOR: f.XOR, Flips: f.Flips}
 	var sb strings.Builder
 	for i, p := range f.CW {
